@@ -346,6 +346,44 @@ class Described(Stage):
         return res
 
 
+class ManyTags(Stage):
+    """more than a thousand different <connection> tags in one stream: lines carrying different tags are decoded as messages of
+    different connections, lines carrying the same tag as messages of the same one"""
+    name = 'many-tags'
+
+    def examples(self, tier):
+        return 5 if tier == 'quick' else 14 * 3
+
+    def gen(self, d, tier):
+        return dict(n=d.choice([d.int(1001, 1040), d.int(1001, 1040), d.int(703, 760)]), extra_every=d.choice([1, 7, 97]))
+
+    def execute(self, case):
+        from .. import session
+        from .c04 import many_tags_specs
+        res = Result()
+        specs = many_tags_specs(case['n'], case['extra_every'])
+        s = session.run_history(specs, 'new')
+        got = s.messages()
+        res.evals = len(specs)
+        if len(got) != len(specs):
+            res.bad('many-tags:message-count', '%d message lines went in, %d messages were recorded' % (len(specs), len(got)))
+            return res
+        by_tag, by_name = {}, {}
+        for sp, m in zip(specs, got):
+            name = m.obj.connection.name() if m.obj.connection is not None else None
+            if by_tag.setdefault(sp['conn'], name) != name:
+                res.bad('many-tags:one-tag-two-connections', 'lines tagged <%s> are shown on connections %s and %s' % (sp['conn'], by_tag[sp['conn']], name))
+                break
+            if by_name.setdefault(name, sp['conn']) != sp['conn']:
+                res.bad('many-tags:two-tags-one-connection', 'lines tagged <%s> and <%s> are both shown as messages of connection %s (%d tags in the stream)' % (
+                    by_name[name], sp['conn'], name, case['n']))
+                break
+        res.nontrivial = True
+        res.label('tags>=1001' if case['n'] >= 1001 else 'tags>=703')
+        res.sample = dict(case)
+        return res
+
+
 CHATTER = string.ascii_letters + string.digits + ' .,:;()[]{}<>@#-_=+*/!?\'|~%&$^`éü'
 
 
@@ -427,7 +465,7 @@ class C01(Prop):
             '(strings up to 9000 characters) through the line loop and the live view; the shown line must be the message the line denotes. described: protocol-aware histories (histgen, incl. messages newer than the shipped XML, nil/array/enum arguments) through the whole pipeline; the recorded message of every line is compared field by field with the spec; non-trivial = >= 4 lines.')
     assumptions = ['wire.py is a faithful port of libwayland wl_closure_print (old dialect checked byte-for-byte against the shipped sample logs)',
                    'strings exclude \'"\' and backslash, ids exclude 0, no `discarded` lines (stated bounds of the property)']
-    stages = [RoundTrip(), NonMessages(), LineLoop(), Described()]
+    stages = [RoundTrip(), NonMessages(), LineLoop(), Described(), ManyTags()]
 
 
 PROP = C01()
